@@ -37,7 +37,45 @@ type Tok struct {
 	Ben  string `json:"ben,omitempty"`
 	Val  int    `json:"val"`
 	Slot int    `json:"slot,omitempty"`
-	V    string `json:"v,omitempty"` // driver-level variant of an ending (same abstract meaning)
+	V    string `json:"v,omitempty"`   // driver-level variant of an ending (same abstract meaning)
+	Inp  string `json:"inp,omitempty"` // PRE: "good" | "bad" input
+	Of   string `json:"of,omitempty"`  // BALOP: "SELF" or an account name
+	Ar   string `json:"ar,omitempty"`  // BALOP: what is done with the balance on the stack
+}
+
+// preInput is the input the driver hands to a precompiled contract.  "good": accepted (every one needs more than one
+// unit of gas for it); "bad" (bn256 operations only): rejected.
+func preInput(to, inp string) []byte {
+	pad := func(n int, last byte) []byte { b := make([]byte, n); b[n-1] = last; return b }
+	switch to {
+	case "P1":
+		return pad(128, 27) // not a valid signature: ecrecover returns nothing, without an error
+	case "P2", "P3", "P4":
+		return pad(32, 7)
+	case "P5": // modexp, 32-byte base / exponent / modulus, a large exponent (13056 gas)
+		b := append(append(pad(32, 32), pad(32, 32)...), pad(32, 32)...)
+		b = append(b, pad(32, 3)...)
+		for i := 0; i < 32; i++ {
+			b = append(b, 0xff)
+		}
+		return append(b, pad(32, 101)...)
+	case "P6":
+		if inp == "bad" {
+			return append(pad(32, 1), pad(32, 1)...) // (1, 1) is not on the curve
+		}
+		return make([]byte, 128) // infinity + infinity
+	case "P7":
+		if inp == "bad" {
+			return append(append(pad(32, 1), pad(32, 1)...), pad(32, 2)...)
+		}
+		return make([]byte, 96)
+	case "P8":
+		if inp == "bad" {
+			return pad(191, 1) // not a multiple of 192 bytes
+		}
+		return []byte{} // the empty product
+	}
+	return nil
 }
 
 // Beh is one behaviour: the program, the model's prediction (passed through to the trace) and the set-up.
@@ -208,6 +246,77 @@ func (c *compiler) body(u *unit, f *frame) error {
 			u.pushBytes(allGas)
 			u.sites[len(u.code)] = n.site
 			u.opc(vm.CALL)
+			u.opc(vm.POP)
+		case "BALOP":
+			if n.tok.Of == "SELF" {
+				u.opc(vm.SELFBALANCE)
+			} else {
+				a, ok := c.addr[n.tok.Of]
+				if !ok {
+					return fmt.Errorf("unknown account %q", n.tok.Of)
+				}
+				u.pushBytes(a.Bytes())
+				u.opc(vm.BALANCE)
+			}
+			switch n.tok.Ar { // compute with the balance on the stack, then let the integer pool recycle what it gets
+			case "ADD":
+				u.push(3)
+				u.opc(vm.ADD)
+				u.opc(vm.POP)
+			case "MUL":
+				u.push(3)
+				u.opc(vm.MUL)
+				u.opc(vm.POP)
+			default:
+				u.opc(vm.POP)
+			}
+			u.push(7)
+			u.push(9)
+			u.opc(vm.ADD)
+			u.opc(vm.POP)
+		case "PRE":
+			to, ok := c.addr[n.tok.To]
+			if !ok {
+				return fmt.Errorf("unknown precompile %q", n.tok.To)
+			}
+			in := preInput(n.tok.To, n.tok.Inp)
+			if len(in) > 0 {
+				l := fmt.Sprintf("blob%d", len(u.blobs))
+				u.blobs = append(u.blobs, in)
+				u.push(uint64(len(in)))
+				u.pushLabel(l)
+				u.push(0)
+				u.opc(vm.CODECOPY)
+			}
+			u.push(0)
+			u.push(0)
+			u.push(uint64(len(in)))
+			u.push(0)
+			var o vm.OpCode
+			switch n.tok.Kind {
+			case "CALL":
+				u.push(uint64(n.tok.Val))
+				o = vm.CALL
+			case "CALLCODE":
+				u.push(uint64(n.tok.Val))
+				o = vm.CALLCODE
+			case "DELEGATECALL":
+				o = vm.DELEGATECALL
+			case "STATICCALL":
+				o = vm.STATICCALL
+			default:
+				return fmt.Errorf("unknown call kind %q", n.tok.Kind)
+			}
+			u.pushBytes(to.Bytes())
+			if g, ok := c.gasAt[n.site]; ok {
+				gasArg(u, g)
+			} else if n.tok.Gas == "one" {
+				gasArg(u, 1)
+			} else {
+				u.pushBytes(allGas)
+			}
+			u.sites[len(u.code)] = n.site
+			u.opc(o)
 			u.opc(vm.POP)
 		case "CALL":
 			to := c.addr[n.tok.To]
@@ -488,10 +597,11 @@ type CallRec struct {
 	Entered bool   `json:"entered"` // the callee executed at least one instruction
 	Closed  bool   `json:"closed"`
 	Ctx     string `json:"ctx"`
-	G0      string `json:"g0"`  // caller's gas after paying for the instruction (CALL*: forwarded gas already deducted)
-	G1      string `json:"g1"`  // caller's gas when it continued
-	Gin     string `json:"gin"` // callee's gas at its first instruction ("" when not entered)
-	Rev     bool   `json:"rev"` // the callee's last instruction was a REVERT that executed (a failed frame that keeps its gas)
+	From    string `json:"from"` // the account in whose context the instruction executed
+	G0      string `json:"g0"`   // caller's gas after paying for the instruction (CALL*: forwarded gas already deducted)
+	G1      string `json:"g1"`   // caller's gas when it continued
+	Gin     string `json:"gin"`  // callee's gas at its first instruction ("" when not entered)
+	Rev     bool   `json:"rev"`  // the callee's last instruction was a REVERT that executed (a failed frame that keeps its gas)
 	Pre     *World `json:"pre"`
 	Post    *World `json:"post"`
 	depth   int
@@ -587,7 +697,8 @@ func (t *tracer) CaptureState(evm *vm.EVM, pc uint64, op vm.OpCode, gas, cost ui
 				under = true
 			}
 		}
-		r := &CallRec{Site: site, Op: op.String(), Parent: parent, Static: under, G0: fmt.Sprint(contract.Gas), g0: contract.Gas,
+		r := &CallRec{Site: site, Op: op.String(), Parent: parent, Static: under, From: t.e.nameOf(contract.Address()),
+			G0: fmt.Sprint(contract.Gas), g0: contract.Gas,
 			Pre: t.e.proj(), depth: depth}
 		t.recs = append(t.recs, r)
 		t.open = append(t.open, len(t.recs)-1)
@@ -666,6 +777,13 @@ func runOne(b *Beh, ov *override) (*result, error) {
 		if t.T == "CREATE" {
 			e.names = append(e.names, fmt.Sprintf("K%d", i+1))
 		}
+		if t.T == "PRE" && len(t.To) == 2 && t.To[0] == 'P' && t.To[1] >= '1' && t.To[1] <= '8' {
+			if _, ok := e.addr[t.To]; !ok {
+				e.addr[t.To] = common.BytesToAddress([]byte{t.To[1] - '0'})
+				e.byAddr[e.addr[t.To]] = t.To
+				e.names = append(e.names, t.To)
+			}
+		}
 	}
 	c := &compiler{addr: e.addr, sels: map[string][]*frame{"A": nil, "B": nil, "C": nil}, selOf: map[*frame]int{},
 		sites: map[common.Hash]map[int]int{}, gasAt: map[int]uint64{}}
@@ -704,6 +822,16 @@ func execute(b *Beh, e *env, c *compiler, codes map[string][]byte, root *frame, 
 		st.SetCode(e.addr[n], codes[n])
 		e.own[n] = codes[n]
 	}
+	// storage from earlier transactions (EvmFrames.tla InitSto): A.1 = 3, B.2 = 3, C.1 = C.2 = 3.  Set-up "fresh": all
+	// of it is committed; set-up "second": the slot-1 values are committed, the slot-2 values are written by the warm-up
+	// transaction and only finalised.
+	three := common.BigToHash(big.NewInt(3))
+	st.SetState(e.addr["A"], slot1, three)
+	st.SetState(e.addr["C"], slot1, three)
+	if b.Setup != "second" {
+		st.SetState(e.addr["B"], slot2, three)
+		st.SetState(e.addr["C"], slot2, three)
+	}
 	// helper: SSTORE(1,1); CALL helper2 (which is INVALID) ; STOP   -- a first transaction with a nested failing frame
 	h := newUnit()
 	h.push(1)
@@ -738,6 +866,8 @@ func execute(b *Beh, e *env, c *compiler, codes map[string][]byte, root *frame, 
 		if werr != nil {
 			return fmt.Errorf("warm-up transaction failed: %v", werr)
 		}
+		st.SetState(e.addr["B"], slot2, three) // what an SSTORE of the earlier transaction does
+		st.SetState(e.addr["C"], slot2, three)
 		st.Finalise(true)
 		txn++
 	}
@@ -852,7 +982,7 @@ func points(used, init uint64, r *rnd) []uint64 {
 
 func carriesValue(b *Beh, site int) bool {
 	t := b.Prog[site-1]
-	return t.T == "CALL" && (t.Kind == "CALL" || t.Kind == "CALLCODE") && t.Val != 0
+	return (t.T == "CALL" || t.T == "PRE") && (t.Kind == "CALL" || t.Kind == "CALLCODE") && t.Val != 0
 }
 
 // sweeps chooses, from what the ample-gas run measured, the overrides that put the gas a frame starts with on the
@@ -866,6 +996,40 @@ func sweeps(b *Beh, res *result) (out []map[string]interface{}, ovs []override) 
 	}
 	recs := res.recs
 	var creates, calls []int
+	n := 0
+	// calls of precompiled contracts: no instruction of the callee is seen, so the required gas is measured by a
+	// calibration run with an explicit, ample gas argument; then the boundary amounts around it are tried
+	for _, r := range recs {
+		if !r.Closed || r.Site <= 0 || b.Prog[r.Site-1].T != "PRE" || n >= b.Sweep {
+			continue
+		}
+		n++
+		const cal = uint64(1000000000)
+		stip := uint64(0)
+		if carriesValue(b, r.Site) {
+			stip = 2300
+		}
+		req := uint64(0)
+		if c2, err := runOne(b, &override{site: r.Site, gas: cal}); err == nil {
+			for _, q := range c2.recs {
+				if q.Site == r.Site && q.Closed && q.Ok && q.g1 >= q.g0 && cal+stip >= q.g1-q.g0 {
+					req = cal + stip - (q.g1 - q.g0)
+				}
+			}
+		}
+		for _, t := range points(req, req, &seed) {
+			arg := t
+			if stip > 0 {
+				if t < stip {
+					continue
+				}
+				arg = t - stip
+			}
+			ovs = append(ovs, override{site: r.Site, gas: arg})
+			out = append(out, map[string]interface{}{"site": r.Site, "via": r.Site, "gas": fmt.Sprint(arg), "target": fmt.Sprint(t),
+				"used": fmt.Sprint(req), "init": fmt.Sprint(req), "pre": true})
+		}
+	}
 	for i, r := range recs {
 		if !r.Closed || !r.Entered || r.Site <= 0 {
 			continue
@@ -878,7 +1042,6 @@ func sweeps(b *Beh, res *result) (out []map[string]interface{}, ovs []override) 
 	}
 	// creations first, then message calls from the innermost outwards
 	sort.SliceStable(calls, func(i, j int) bool { return recs[calls[i]].depth > recs[calls[j]].depth })
-	n := 0
 	for _, i := range append(creates, calls...) {
 		if n >= b.Sweep {
 			break
@@ -958,6 +1121,27 @@ func run(env *drive.Env) error {
 					return fmt.Errorf("behaviour %d sweep %v: %v", env.T, infos[i], err)
 				}
 				r2.ev["sweep"] = infos[i]
+				if infos[i]["pre"] == true {
+					// the gas a precompile is called with is known here (explicit argument plus stipend): record it as the
+					// gas the callee started with, unless the call was refused for lack of balance
+					for _, q := range r2.recs {
+						if q.Site != ovs[i].site || !q.Closed || q.Entered {
+							continue
+						}
+						tok := b.Prog[q.Site-1]
+						if carriesValue(&b, q.Site) && q.Pre != nil && int64(tok.Val) > q.Pre.Bal[q.From] {
+							continue
+						}
+						g := ovs[i].gas
+						if g == 0 {
+							g = 2300 // this code base turns a zero gas argument into the stipend amount
+						}
+						if carriesValue(&b, q.Site) {
+							g += 2300
+						}
+						q.Entered, q.Gin = true, fmt.Sprint(g)
+					}
+				}
 				env.Emit(r2.ev)
 			}
 		}
